@@ -157,6 +157,31 @@ pub open spec fn head_ok(p: &PoolImpl, head: Seq<Cert>) -> bool {
 pub uninterp spec fn was_sent(e: PoolEvent) -> bool;
 pub uninterp spec fn was_sent_standstill(next: Slot, certs: Seq<Cert>, votes: Seq<Vote>) -> bool;
 
+// ---------------------------------------------------------------- C06 pool-level wiring specification
+#[verifier::external_body] pub struct FinalizationEvent { _p: () }
+impl SlotState {
+    // "notarized-fallback-or-stronger certified" (the postcondition PROVED for is_notar_fallback_or_stronger in unit slot_state)
+    pub open spec fn nf_or_stronger(&self, h: BlockHash) -> bool {
+        (self.certificates.notar matches Some(c) && c.block_hash == h)
+            || (self.certificates.fast_finalize matches Some(c) && c.block_hash == h)
+            || self.has_nf_cert(h)
+    }
+}
+// the block a certificate certifies (notar, notar-fallback, fast-final), if any
+pub open spec fn cert_certifies(c: Cert) -> Option<BlockId> {
+    match c {
+        Cert::Notar(x) => Some((x.slot, x.block_hash)),
+        Cert::NotarFallback(x) => Some((x.slot, x.block_hash)),
+        Cert::FastFinal(x) => Some((x.slot, x.block_hash)),
+        _ => None,
+    }
+}
+impl PoolImpl {
+    pub open spec fn certified(&self, b: BlockId) -> bool {
+        self.slot_states@.contains_key(b.0) && self.slot_states@[b.0].nf_or_stronger(b.1)
+    }
+}
+
 pub mod code {
 use super::*;
 broadcast use super::axiom_Slot_obeys_cmp_laws, super::axiom_block_id_obeys_cmp_laws, super::axiom_DoubleMerkleRoot_obeys_cmp_laws;
@@ -596,6 +621,165 @@ after `self.send_votor_event(event);`
         }
 @*/
 
+}
+// ---------------------------------------------------------------- C06 wiring: add_block / add_valid_cert
+// R5: `m.entry(k).or_default()` on the waiting-children map: the list for k, created empty on first use
+#[verifier::external_body]
+pub fn verif_waiting_entry(m: &mut BTreeMap<BlockId, Vec<BlockId>>, k: BlockId) -> (r: &mut Vec<BlockId>)
+    ensures
+        old(m)@.contains_key(k) ==> r@ == old(m)@[k]@,
+        !old(m)@.contains_key(k) ==> r@.len() == 0,
+        final(m)@ == old(m)@.insert(k, *final(r)),
+{ unimplemented!() }
+#[verifier::external_body]
+pub fn verif_clone_cert(c: &Cert) -> (r: Cert) ensures r == *c { unimplemented!() }
+#[verifier::external_body]
+pub fn verif_clone_block_id(b: &BlockId) -> (r: BlockId) ensures r == *b { unimplemented!() }
+// R8: `cert.block_hash().cloned().expect(..)`: the expect is a proof obligation
+#[verifier::external_body]
+pub fn verif_cert_block_hash(c: &Cert) -> (r: BlockHash)
+    requires cert_certifies(*c) is Some
+    ensures r == (cert_certifies(*c)->0).1
+{ unimplemented!() }
+impl FinalityTracker {
+    // Only the finality tracker itself changes in these calls (they borrow that one field); their contracts are proved in
+    // unit `finality` and play no role for the wiring obligations below.
+    #[verifier::external_body] pub fn mark_notarized(&mut self, id: BlockId) -> (r: FinalizationEvent) { unimplemented!() }
+    #[verifier::external_body] pub fn mark_fast_finalized(&mut self, id: BlockId) -> (r: FinalizationEvent) { unimplemented!() }
+    #[verifier::external_body] pub fn mark_finalized(&mut self, slot: Slot) -> (r: FinalizationEvent) { unimplemented!() }
+    #[verifier::external_body] pub fn add_parent(&mut self, id: BlockId, parent: BlockId) -> (r: FinalizationEvent)
+        requires
+            // [C06.parent_in_earlier_slot C10.parent_in_earlier_slot]
+            id.0.0 > parent.0.0,
+    { unimplemented!() }
+}
+impl ParentReadyTracker {
+    #[verifier::external_body] pub fn mark_notar_fallback(&mut self, id: &BlockId) -> (r: SmallVec<[(Slot, BlockId); 1]>) { unimplemented!() }
+    #[verifier::external_body] pub fn mark_skipped(&mut self, slot: Slot) -> (r: SmallVec<[(Slot, BlockId); 1]>) { unimplemented!() }
+    #[verifier::external_body] pub fn handle_finalization(&mut self, event: FinalizationEvent) -> (r: SmallVec<[(Slot, BlockId); 1]>) { unimplemented!() }
+}
+impl SlotState {
+/*@ stub units/slot_state/unit.rs :: src/consensus/pool/slot_state.rs :: impl SlotState/fn add_cert @*/
+/*@ stub units/slot_state/unit.rs :: src/consensus/pool/slot_state.rs :: impl SlotState/fn notify_parent_known @*/
+/*@ stub units/slot_state/unit.rs :: src/consensus/pool/slot_state.rs :: impl SlotState/fn is_notar_fallback_or_stronger @*/
+    // SlotState::notify_parent_certified WITHOUT its precondition "parent registered, state well formed" (proved with it in unit
+    // slot_state): that the waiting child is still registered when its parent's certificate arrives is ASSUMED here.
+    #[verifier::external_body]
+    pub fn verif_notify_parent_certified(&mut self, hash: BlockHash) -> (r: Option<Either<PoolEvent, BlockId>>)
+        ensures
+            final(self).parents@ == old(self).parents@.insert(hash, ParentStatus::Certified),
+            final(self).certificates == old(self).certificates,
+    { unimplemented!() }
+}
+impl PoolImpl {
+    // ASSUMED: the pool-level follow-up of a finalization (parent-ready events, pruning of decided slots) does not touch the
+    // map of blocks waiting for a parent certificate
+    #[verifier::external_body]
+    pub fn handle_finalization(&mut self, event: FinalizationEvent)
+        ensures
+            final(self).s2n_waiting_parent_cert == old(self).s2n_waiting_parent_cert,
+            final(self).epoch_info == old(self).epoch_info,
+    { unimplemented!() }
+    #[verifier::external_body]
+    pub fn send_parent_ready_events(&self, parents: SmallVec<[(Slot, BlockId); 1]>) { unimplemented!() }
+
+/*@ extract src/consensus/pool.rs :: impl PoolImpl/fn notify_waiting_children
+props C06
+elide-async
+rewrite[R4] `for (child_slot, child_hash) in children {` => `let mut verif_c: usize = 0; while verif_c < children.len() { let (child_slot, child_hash) = verif_clone_block_id(&children[verif_c]); verif_c += 1;`
+rewrite*[R8] `.notify_parent_certified(` => `.verif_notify_parent_certified(`
+ensures
+        final(self).epoch_info == old(self).epoch_info,
+        // [C06.certifying_cert_releases_the_waiting_children]
+        !final(self).s2n_waiting_parent_cert@.contains_key(*block_id),
+        // [C06.other_waiting_children_untouched]
+        forall|p: BlockId| p != *block_id ==> (#[trigger] final(self).s2n_waiting_parent_cert@.contains_key(p) <==> old(self).s2n_waiting_parent_cert@.contains_key(p))
+            && (final(self).s2n_waiting_parent_cert@.contains_key(p) ==> final(self).s2n_waiting_parent_cert@[p] == old(self).s2n_waiting_parent_cert@[p]),
+        // [C06.every_waiting_child_is_notified] each block that was waiting for this parent has its parent marked certified
+        old(self).s2n_waiting_parent_cert@.contains_key(*block_id) ==> forall|k: int| 0 <= k < old(self).s2n_waiting_parent_cert@[*block_id]@.len() ==>
+            final(self).st((#[trigger] old(self).s2n_waiting_parent_cert@[*block_id]@[k]).0).parents@.contains_key(old(self).s2n_waiting_parent_cert@[*block_id]@[k].1)
+            && final(self).st(old(self).s2n_waiting_parent_cert@[*block_id]@[k].0).parents@[old(self).s2n_waiting_parent_cert@[*block_id]@[k].1] == ParentStatus::Certified,
+        // nothing else about the slot states changes: certificates are untouched
+        forall|sl: Slot| (#[trigger] final(self).st(sl)).certificates == old(self).st(sl).certificates,
+before `let Some(children) = self.s2n_waiting_parent_cert.remove(block_id) else {`
+        let ghost pre = *old(self);
+        proof { broadcast use axiom_fresh_slot_state; }
+loop 0
+        invariant
+            pre == *old(self),
+            verif_c <= children@.len(),
+            pre.s2n_waiting_parent_cert@.contains_key(*block_id) && children@ == pre.s2n_waiting_parent_cert@[*block_id]@,
+            self.s2n_waiting_parent_cert@ == pre.s2n_waiting_parent_cert@.remove(*block_id),
+            self.epoch_info == pre.epoch_info,
+            forall|k: int| 0 <= k < verif_c ==> self.st((#[trigger] children@[k]).0).parents@.contains_key(children@[k].1)
+                && self.st(children@[k].0).parents@[children@[k].1] == ParentStatus::Certified,
+            forall|sl: Slot| (#[trigger] self.st(sl)).certificates == pre.st(sl).certificates,
+        decreases children@.len() - verif_c,
+before `let Some(output) = self .slot_state(child_slot) .verif_notify_parent_certified(child_hash) else {`
+        let ghost bef = *self;
+before `continue;`
+        proof {
+            assert forall|sl: Slot| (#[trigger] self.st(sl)).certificates == bef.st(sl).certificates by { if sl == child_slot {} }
+            assert forall|k: int| 0 <= k < verif_c implies self.st((#[trigger] children@[k]).0).parents@.contains_key(children@[k].1)
+                && self.st(children@[k].0).parents@[children@[k].1] == ParentStatus::Certified by {
+                if k < verif_c - 1 { let _ = bef.st(children@[k].0); }
+            }
+        }
+blockend `let Some(output) = self .slot_state(child_slot) .verif_notify_parent_certified(child_hash) else {`
+        proof {
+            assert forall|sl: Slot| (#[trigger] self.st(sl)).certificates == bef.st(sl).certificates by { if sl == child_slot {} }
+            assert forall|k: int| 0 <= k < verif_c implies self.st((#[trigger] children@[k]).0).parents@.contains_key(children@[k].1)
+                && self.st(children@[k].0).parents@[children@[k].1] == ParentStatus::Certified by {
+                if k < verif_c - 1 { let _ = bef.st(children@[k].0); }
+            }
+        }
+@*/
+
+/*@ extract src/consensus/pool.rs :: impl PoolImpl/fn add_valid_cert
+as add_valid_cert_body
+props C06
+elide-async
+rewrite*[R9] `cert.clone()` => `verif_clone_cert(&cert)`
+rewrite*[R9] `block_id.clone()` => `verif_clone_block_id(&block_id)`
+rewrite[R8] `cert .block_hash() .cloned() .expect("notar(-fallback) cert always references a block")` => `verif_cert_block_hash(&cert)`
+ensures
+        final(self).epoch_info == old(self).epoch_info,
+        // [C06.certifying_cert_releases_the_waiting_children] whichever certificate certifies the parent (notar, notar-fallback
+        // or fast-final), no block is left waiting for it
+        cert_certifies(cert) matches Some(b) ==> !final(self).s2n_waiting_parent_cert@.contains_key(b),
+        // [C06.other_waiting_children_untouched]
+        forall|p: BlockId| cert_certifies(cert) != Some(p) ==> (#[trigger] final(self).s2n_waiting_parent_cert@.contains_key(p) <==> old(self).s2n_waiting_parent_cert@.contains_key(p))
+            && (final(self).s2n_waiting_parent_cert@.contains_key(p) ==> final(self).s2n_waiting_parent_cert@[p] == old(self).s2n_waiting_parent_cert@[p]),
+        // [C06.every_waiting_child_is_notified]
+        (cert_certifies(cert) matches Some(b) && old(self).s2n_waiting_parent_cert@.contains_key(b)) ==> forall|k: int| 0 <= k < old(self).s2n_waiting_parent_cert@[cert_certifies(cert)->0]@.len() ==>
+            final(self).st((#[trigger] old(self).s2n_waiting_parent_cert@[cert_certifies(cert)->0]@[k]).0).parents@.contains_key(old(self).s2n_waiting_parent_cert@[cert_certifies(cert)->0]@[k].1)
+            && final(self).st(old(self).s2n_waiting_parent_cert@[cert_certifies(cert)->0]@[k].0).parents@[old(self).s2n_waiting_parent_cert@[cert_certifies(cert)->0]@[k].1] == ParentStatus::Certified,
+@*/
+
+/*@ extract src/consensus/pool.rs :: impl Pool for PoolImpl/fn add_block
+props C06 C10
+elide-async
+rewrite*[R9] `block_id.clone()` => `verif_clone_block_id(&block_id)`
+rewrite*[R9] `parent_id.clone()` => `verif_clone_block_id(&parent_id)`
+rewrite*[R8] `.notify_parent_certified(` => `.verif_notify_parent_certified(`
+rewrite[R5] `self.s2n_waiting_parent_cert .entry(parent_id) .or_default() .push(block_id);` => `let ghost pw = self.s2n_waiting_parent_cert@; let verif_w = verif_waiting_entry(&mut self.s2n_waiting_parent_cert, parent_id); let ghost w0 = verif_w@; verif_w.push(block_id); proof { assert(self.s2n_waiting_parent_cert@[parent_id]@ == w0.push(block_id)); assert(w0.push(block_id)[w0.len() as int] == block_id); assert forall|c: BlockId| w0.contains(c) implies w0.push(block_id).contains(c) by { let i = choose|i: int| 0 <= i < w0.len() && w0[i] == c; assert(w0.push(block_id)[i] == c); } }`
+requires
+        // the caller announces only blocks whose parent is in an earlier slot (proved for blockstore and repair: C13, C14)
+        block_id.0.0 > parent_id.0.0,
+ensures
+        // [C06.waiting_child_is_never_dropped] registering a block never makes another block stop waiting for its parent
+        forall|p: BlockId, c: BlockId| old(self).s2n_waiting_parent_cert@.contains_key(p) && #[trigger] old(self).s2n_waiting_parent_cert@[p]@.contains(c)
+            ==> final(self).s2n_waiting_parent_cert@.contains_key(p) && final(self).s2n_waiting_parent_cert@[p]@.contains(c),
+        // [C06.child_of_uncertified_parent_waits]
+        !old(self).certified(parent_id) ==> final(self).s2n_waiting_parent_cert@.contains_key(parent_id)
+            && final(self).s2n_waiting_parent_cert@[parent_id]@.contains(block_id),
+        // [C06.child_of_certified_parent_is_told_at_once]
+        old(self).certified(parent_id) ==> final(self).st(block_id.0).parents@.contains_key(block_id.1)
+            && final(self).st(block_id.0).parents@[block_id.1] == ParentStatus::Certified,
+@*/
+}
+
+impl PoolImpl {
 // Canary: MUST fail (claims nothing is ever out of bounds).
 /*@ extract src/consensus/pool.rs :: impl PoolImpl/fn prune
 as canary_prune
